@@ -241,6 +241,16 @@ FirstErr(args) == \* args: sequence of values; the first error or Blank-marker
     IN IF I = {} THEN [t |-> "none"]
        ELSE args[CHOOSE i \in I : \A j \in I : i <= j]
 
+\* ... when some of the values are only known to be SOME error (anyerr) or not known at all (open): the leftmost of the error
+\* values, if it is known; some error, if an error value is certainly among them; Open otherwise; [t |-> "none"] without any
+LeftmostErr(args) ==
+    LET I == {i \in 1..Len(args) : args[i].t \in {"err", "anyerr", "open"}}
+    IN IF I = {} THEN [t |-> "none"]
+       ELSE LET x == args[CHOOSE i \in I : \A j \in I : i <= j] IN
+            IF x.t = "err" THEN x
+            ELSE IF \E i \in I : args[i].t \in {"err", "anyerr"} THEN AnyErr
+            ELSE Open
+
 AnyOpen(args) == \E i \in 1..Len(args) : args[i].t = "open"
 
 \* lift a binary numeric operation: errors first (left to right), then coercion
